@@ -176,6 +176,7 @@ pub fn case_input(seed: u64, idx: usize, thorough: bool) -> (Vec<u8>, &'static s
     if idx < seeds.len() {
         return (seeds[idx].clone(), "seed_whole");
     }
+    let idx = idx - seeds.len();
     if idx % 4 == 3 {
         adversarial(seed, idx / 4, thorough)
     } else {
